@@ -659,7 +659,12 @@ class Progress(JupyterMixin, RenderHook):
             self.console.show_cursor(False)
             self._enable_redirect_io()
             self.console.push_render_hook(self)
-            self.refresh()
+            try:
+                self.refresh()
+            except Exception:
+                # undo the hidden cursor, the io redirection and the render hook
+                self.stop()
+                raise
             if self.auto_refresh:
                 self._refresh_thread = _RefreshThread(self, self.refresh_per_second)
                 self._refresh_thread.start()
